@@ -12,7 +12,6 @@ import (
 	"errors"
 	"fmt"
 	"os"
-	"sort"
 	"strings"
 	"sync"
 	"testing"
@@ -69,10 +68,10 @@ const c35End, c35Start, c35StartHigh = 5, 2, 9
 func c35Topic(i int) string { return fmt.Sprintf("t%d", i) }
 
 type c35Inputs struct {
-	group  DescribedGroup
-	commit OffsetResponses
-	starts ListedOffsets
-	ends   ListedOffsets
+	group    DescribedGroup
+	commit   OffsetResponses
+	starts   ListedOffsets
+	ends     ListedOffsets
 	anyStart bool
 }
 
@@ -251,8 +250,10 @@ func c35Check(c *c35Case) (fail *c35Fail, sig string, obs c35Obs) {
 		sorted := l.Sorted()
 		count := map[[2]int]int{}
 		for _, e := range sorted {
-			var ti int
-			fmt.Sscanf(e.Topic, "t%d", &ti)
+			ti := -1
+			if len(e.Topic) == 2 && e.Topic[0] == 't' {
+				ti = int(e.Topic[1] - '0')
+			}
 			count[[2]int{ti, int(e.Partition)}]++
 		}
 		var sb strings.Builder
@@ -329,7 +330,7 @@ func c35Check(c *c35Case) (fail *c35Fail, sig string, obs c35Obs) {
 			}
 			return
 		}() {
-			return &c35Fail{"not-reported-once", fmt.Sprintf("%s: Sorted() has %d entries, the lag map %d", f.name, len(sorted), len(l))}, "", obs
+			return &c35Fail{"not-reported-once", fmt.Sprintf("%s: Sorted() has %d entries, which is not the number of entries in the lag map", f.name, len(sorted))}, "", obs
 		}
 		fmt.Fprintf(&sb, "T%d#", tot)
 		sig += sb.String()
@@ -551,10 +552,5 @@ func TestVerifC35(t *testing.T) {
 	if f, sig, _ := c35Check(&sample); f == nil {
 		r.Sample(map[string]any{"case": sample, "outcome_signature": sig})
 	}
-	keys := make([]string, 0, len(done))
-	for k := range done {
-		keys = append(keys, k)
-	}
-	sort.Strings(keys)
 	os.Exit(r.Write())
 }
